@@ -7,7 +7,7 @@ CONSTANTS
   Big = 5000
   Kinds = {"fwd", "back"}
   Calls = {"none", "ok", "revert", "hookfail", "nestok"}
-  Alts = {"none", "reenc", "amt", "seq", "sender"}
+  Alts = {"none", "reenc", "amt", "seq", "sender", "feeopt"}
   AckAlts = {"none", "ackcode"}
   Proofs = {"ok"}
   Signers = {"relayer", "outsider"}
